@@ -594,11 +594,21 @@ func H_dep() {
 	var out []byte
 	clean := false
 	rb := vfParam("rb")
+	if vfParam("cumjump") != 0 && sizes[0] == refBlockMax(bsid) {
+		// The Reader counts the decoded bytes in a 32-bit field. Read the first (full) block, then
+		// advance that counter by an arbitrary amount: the state of a stream that is that much
+		// longer and whose last 64 KiB are this block. Decoding what follows must not depend on it.
+		first := make([]byte, sizes[0])
+		n, err := zr.Read(first)
+		vfAssume(vfAnd(n == sizes[0], err == nil))
+		out = append(out, first...)
+		zr.cum += vfU32("cumjump")
+	}
 	if rb == 2 {
 		var w hSink
 		w.failAt = -1
 		_, err := zr.WriteTo(&w)
-		out = w.buf
+		out = append(out, w.buf...)
 		clean = err == nil
 	} else {
 		size := 1000
